@@ -241,7 +241,8 @@ CLAIMED["C08"] = {
             "leaves the state unchanged) and the length check for every "
             "header and expected length (Error code 3). Thorough tier adds the "
             "byte-exact Serial Notify written by Connection::notify for "
-            "every source state and connection version.",
+            "every source state and connection version, and the byte-exact "
+            "Error PDU written by Connection::error.",
     "ref": "§3 C08",
     "note": "Hooks: rtr::server::verif (Conn wrapper of the private "
             "Connection, VQuery mirror of Query, notify future driven by a "
